@@ -217,7 +217,7 @@ func instrumentPkg(repo, rel, pkgName, out string, replace map[string]string, fu
 			}
 		}
 		// package-level variables
-		if full {
+		if full || pkgName == "api" {
 			for _, d := range sf.f.Decls {
 				if gd, ok := d.(*ast.GenDecl); ok && gd.Tok == token.VAR {
 					for _, s := range gd.Specs {
@@ -322,7 +322,7 @@ func instrumentPkg(repo, rel, pkgName, out string, replace map[string]string, fu
 			replace[sf.path] = outPath
 		}
 	}
-	if full {
+	if full || pkgName == "api" {
 		sort.Strings(globals)
 		var b strings.Builder
 		b.WriteString("//go:build verif\n\npackage " + pkgName + "\n\n// VerifGlobals returns pointers to every package-level variable (generated).\nfunc VerifGlobals() map[string]any {\n\treturn map[string]any{\n")
